@@ -8,8 +8,8 @@ Python counterparts (the tree WITH the repairs F-C07, F-C07b, F-C07c):
 * `TaxBenefitSystem.get_parameters_at_instant` (`functools.lru_cache`, keyed by `(self, instant)`,
   `maxsize = 128`, ONE cache for the whole process: a baseline and its reforms share it) ↦ `viewAt`
   on a `World` (`memo`, `memoTouch`, `cacheSize`)
-* `TaxBenefitSystem.load_extension` (`cache_clear()`, own copy for a reform that shares its baseline's
-  tree — repair C14f —, then `ParameterNode.merge` IN PLACE) ↦ `Op.extend`
+* `TaxBenefitSystem.load_extension` (`cache_clear()`, own copy for a reform — repairs
+  C14f/C14g —, then `ParameterNode.merge` IN PLACE) ↦ `Op.extend`
   (`mergeInto`); `_get_baseline_parameters_at_instant` ↦ `Read.baseView` (`rootOf`)
 * `TaxBenefitSystem.load_parameters`                    ↦ `Op.reload`   (tree built, `preprocess_parameters`
   hook run, tree replaced, memo emptied — in that order)
@@ -301,14 +301,8 @@ def mergeInto (cs : List (String × PNode V)) : List (String × PNode V) → Lis
   | [] => (cs, true)
   | (k, c) :: r => if (assoc k cs).isSome then (cs, false) else mergeInto (cs ++ [(k, c)]) r
 
-/-- `self.baseline is not None and self.parameters is self.baseline.parameters` -/
-def sharesWithBaseline (w : World V) (r : SysRec) : Bool :=
-  match r.baseline with
-  | none => false
-  | some b =>
-    match w.systems[b]? with
-    | some rb => rb.tree == r.tree
-    | none => false
+/-- `self.baseline is not None` -/
+def isReform (r : SysRec) : Bool := r.baseline.isSome
 
 /-- `self.parameters = copy.deepcopy(self.parameters)`: system `s` now refers to a new object, equal
     to object `i`; every other system keeps its reference -/
@@ -394,8 +388,9 @@ def step (w : World V) : Op V → World V × Obs V
       match r.tree with
       | none => ({ w with memo := [] }, .failed "AttributeError: None")
       | some i =>
-        -- a reform that still refers to its baseline's object gets its own copy first (repair C14f)
-        match (if sharesWithBaseline w r then ownCopy w s i else (w, i)) with
+        -- a reform ALWAYS gets a copy of its own first: it may share its tree with any system along its
+        -- chain of baselines or with other reforms of them (repairs C14f, C14g)
+        match (if isReform r then ownCopy w s i else (w, i)) with
         | (w1, j) =>
           match w1.heap[j]? with                      -- then `self.parameters.merge(…)`, in place
           | some (.node cs) =>
@@ -439,15 +434,15 @@ def Op.target : Op V → Option Nat
   | .newReform _ => none
 
 /-- Does the operation, run in state `w`, leave the tree of system `b` alone? A replacement of another
-    system's tree does; an extension does when it is loaded on another system that either gets its own
-    copy first or does not refer to `b`'s object. -/
+    system's tree does; an extension does when it is loaded on another system that is a reform (it gets its
+    own copy first) or does not refer to `b`'s object. -/
 def Op.spares (w : World V) (b : Nat) : Op V → Bool
   | .modify s _ => s != b
   | .reload s _ _ => s != b
   | .extend s _ =>
     s != b &&
     (match w.systems[s]?, w.systems[b]? with
-     | some r, some rb => sharesWithBaseline w r || r.tree != rb.tree
+     | some r, some rb => isReform r || r.tree != rb.tree
      | _, _ => true)
   | .readView .. => true
   | .readTree .. => true
